@@ -5,7 +5,8 @@ One recorder wraps quick_tidal_dissipation / quick_dual_body_tidal_dissipation; 
       I3 synchronous, N=2, l=2 => (21/2)(-Im k2) G M^2 R^5 n e^2 / a^6;  I4 passive rheology => heating >= 0 (where the
       truncated tables are still non-negative, i.e. inside the truncation's validity range);
       I5 grouping: an independent straight sum over every (l,m,p,q) present in the real tables with its own -Im k_l(|w|)
-      from the published compliance equals the grouped result;  I6 scalar == array element-wise
+      from the published compliance equals the grouped result;  I6 scalar == array element-wise;  I7 the same state given as periods
+      instead of frequencies gives the same result, and tidal_scale / da_dt_scale / de_dt_scale / dspin_dt_scale act as pure factors
  C11: energy balance, angular-momentum balance at zero obliquity, de/dt finite and exactly 0 at e=0, arrays == scalars
 The module is shared: checks/c11_*.py re-exports it with PROP='C11' and only the C11 monitors deciding.
 """
@@ -139,11 +140,20 @@ def eval_case(c):
     a = (G * (Mh + mass) / n ** 2) ** (1.0 / 3.0)
     dt = (1.0 / c['q']) / n
 
-    def single(rheo, e_, obl_, spin_, arr, Mh_=Mh, R_=R, mass_=mass, g_=g, rho_=rho, C_=C, derivs=True):
+    def single(rheo, e_, obl_, spin_, arr, Mh_=Mh, R_=R, mass_=mass, g_=g, rho_=rho, C_=C, derivs=True, extra=None):
         f = (lambda x: None if x is None else np.array([x, x * 1.0, x])) if arr else (lambda x: x)
         kw = dict(viscosity=c['visc'], shear_modulus=c['mu'], rheology=rheo, eccentricity=f(e_), obliquity=f(obl_), orbital_frequency=f(n),
                   spin_frequency=f(spin_), max_tidal_order_l=c['lmax'], eccentricity_truncation_lvl=c['N'], fixed_k2=c['k2'], fixed_q=c['q'],
                   calculate_orbit_spin_derivatives=derivs)
+        if extra:
+            if extra.get('periods'):
+                # the same state given as periods [days] instead of frequencies
+                kw['orbital_period'] = f(2 * math.pi / n / 86400.0)
+                kw['orbital_frequency'] = None
+                if spin_ is not None:
+                    kw['spin_period'] = f(2 * math.pi / spin_ / 86400.0)
+                    kw['spin_frequency'] = None
+            kw.update({k_: v_ for k_, v_ in extra.items() if k_ != 'periods'})
         cnt['calls'] += 1
         return quick_tidal_dissipation(Mh_, R_, mass_, g_, rho_, C_, **kw)
 
@@ -248,6 +258,35 @@ def eval_case(c):
                             V('derivative-scalar-vs-array', f'{nm}: {x!r} vs {y!r} between scalar and array calls (e={e!r})')
                 except ZeroDivisionError as ex:
                     V('ecc-derivative-e0-raises', f'scalar call raised ZeroDivisionError at e={e!r} while the array call returned')
+        # I7 equivalent parameterisations: periods instead of frequencies, and the documented linear scale factors
+        if finite and (spin is None or spin != 0.0):
+            rs = np.random.default_rng([c.get('seed', 0), 10, 77, c.get('sub', 0)])
+            ts, sa, se, ss = (float(x) for x in rs.uniform(0.25, 4.0, 4))
+            try:
+                r3 = single(rheo, e, obl, spin, c['array'], extra={'periods': True})
+                r4 = single(rheo, e, obl, spin, c['array'], extra={'tidal_scale': ts, 'da_dt_scale': sa, 'de_dt_scale': se, 'dspin_dt_scale': ss})
+            except ZeroDivisionError:
+                r3 = r4 = None
+            if r3 is not None:
+                names = ('tidal_heating', 'dUdM', 'dUdw', 'dUdO') if c10 else ('semi_major_axis_derivative', 'eccentricity_derivative', 'spin_rate_derivative')
+                fac = {'tidal_heating': ts, 'dUdM': ts, 'dUdw': ts, 'dUdO': ts, 'semi_major_axis_derivative': ts * sa, 'eccentricity_derivative': ts * se, 'spin_rate_derivative': ts * ss}
+                for nm in names:
+                    x0, x3, x4 = first(r[nm]), first(r3[nm]), first(r4[nm])
+                    if not all(math.isfinite(v) for v in (x0, x3, x4)):
+                        continue
+                    cnt['identities_checked'] += 2
+                    flo = (scale if nm == 'tidal_heating' else scale_pot * c['lmax'] * 30) if c10 else 0.0
+                    # the period <-> frequency conversion costs a few ulp of n, amplified by the strong frequency dependence of the modes
+                    # (not at a spin-orbit commensurability: a mode frequency that is exactly zero becomes +-1e-22 after the conversion and the
+                    # sign-dependent CPL/CTL terms legitimately jump)
+                    ratio_ = spin_eff / n
+                    commens = any(abs(ratio_ * m_ - round(ratio_ * m_)) < 1e-6 for m_ in range(1, 8))
+                    rate_floor = 0.0 if c10 else 1e-13 * scale / (Mh * n * a * a * max(e, 1e-3)) * (a if nm.startswith('semi') else 1.0)
+                    if not commens and abs(x3 - x0) > max(1e-9 * max(abs(x0), flo), rate_floor):
+                        V('periods-vs-frequencies', f'{nm}: {x3!r} when the state is given as orbital_period/spin_period but {x0!r} for the same state given as frequencies (kind={kind} rheo={rheo})')
+                    # (de/dt is a difference of two nearly equal terms: the scale is applied before the subtraction, so allow its rounding)
+                    if abs(x4 - fac[nm] * x0) > max((1e-12 if c10 else 1e-9) * max(abs(fac[nm] * x0), flo), rate_floor * fac[nm]):
+                        V('scale-factors', f'{nm}: {x4!r} with tidal_scale={ts:.3f}, da/de/dspin scales {sa:.3f}/{se:.3f}/{ss:.3f}; expected {fac[nm] * x0!r} = factor x unscaled result (kind={kind} rheo={rheo})')
     else:
         # dual-body dissipation
         R2, rho2 = R * 0.27, rho * 0.8
